@@ -119,6 +119,9 @@ class Engine:
     def cls_term(self, st, ref_t):
         return z3.Select(st.heap.get(("cls",)), ref_t)
 
+    def cls_term_heap(self, heap, ref_t):
+        return z3.Select(heap.get(("cls",)), ref_t)
+
     def isinstance_term(self, st, ref_t, cname):
         subs = self.concrete_subclasses(cname)
         if not subs:
@@ -303,6 +306,7 @@ class Engine:
             hyps.append(z3.Not(self.spec_bool(kf["carve_out"], s0, self.cur_frame)))
         ob = Obligation(name, kind, hyps, goal, note, props)
         ob.trace = list(st.trace)
+        ob.entry = (getattr(self, "_entry_env", None), getattr(self, "_entry_heap", None))
         self.obligations.append(ob)
 
     def feasible(self, st, cond):
